@@ -18,6 +18,7 @@ import Clem.Proofs.C01Turn
 import Clem.Proofs.Sort
 import Clem.Proofs.KeySuff
 import Clem.Props.C01.Compose
+import Clem.Props.C01.ComposeTransparent
 
 set_option linter.unusedSimpArgs false
 
